@@ -137,7 +137,11 @@ func runC06(c *Ctx) {
 			return map[string]any{"content": corpus[idx[0]].Name, "encoding": encs[idx[1]].Name, "decoder": decoderNames[idx[2]]}
 		}}
 	// golden files written by other implementations
-	golden := []string{"/repo/testdata/bitmapwithruns.bin", "/repo/testdata/bitmapwithoutruns.bin", "/repo/testfrozendata/arrays_only.portable", "/repo/testfrozendata/bitmaps_only.portable", "/repo/testfrozendata/mixed.portable", "/repo/testfrozendata/runs_only.portable"}
+	repo := "/repo"
+	if r := os.Getenv("VERIF_REPO"); r != "" {
+		repo = r
+	}
+	golden := []string{repo + "/testdata/bitmapwithruns.bin", repo + "/testdata/bitmapwithoutruns.bin", repo + "/testfrozendata/arrays_only.portable", repo + "/testfrozendata/bitmaps_only.portable", repo + "/testfrozendata/mixed.portable", repo + "/testfrozendata/runs_only.portable"}
 	gd := &explore.Product{Name: "golden files (Java/C) through both decoders", Dims: []int{len(golden), len(decoderNames)}, Deadline: c.Budget(110, 1700),
 		Run: func(idx []int) (string, *ev.Fail) {
 			data, err := os.ReadFile(golden[idx[0]])
